@@ -773,15 +773,6 @@ def replay_file(path):
     return 0
 
 
-def fresh_interpreter_digests(seed, tier, idxs, hashseed):
-    env = dict(os.environ, VERIF_HASHSEED=str(hashseed), VERIF_SEED=str(seed))
-    cmd = [os.path.join(core.VERIF, 'check'), PROP, '--tier', tier, '--digests', json.dumps(idxs)]
-    out = subprocess.run(cmd, cwd=core.VERIF, env=env, capture_output=True, text=True, timeout=900)
-    if out.returncode != 0:
-        raise core.HarnessError(f'fresh-interpreter digest run failed: {out.stderr[-2000:]}')
-    return json.loads(out.stdout.strip().splitlines()[-1])
-
-
 def digests_only(seed, tier, idxs, family=None):
     core.quiet_tenpy()
     np.seterr(all='ignore')
